@@ -13,6 +13,7 @@ CHECK = {
         {"fn": P + "vC04_boundedPriority", "replay": "model-only"},
         {"fn": P + "vC04_priorityOrder", "opts": {"feasibility": True, "unwind": 6, "unwind_mode": "assert"}},
     ],
+    "opts_thorough": {"rounds": 5},
     "opts": {"rounds": 3, "unwind": 3, "unwind_mode": "assume", "feasibility": False,
              "loop_bounds": {P + "vC04_scenario$3": 5, P + "vC04_scenario": 8}},
     "timeout_ms": {"quick": 400000, "thorough": 1800000},
